@@ -34,8 +34,6 @@ theorem lookup_some {q : List (Item κ ν)} {k : κ} {o : Item κ ν} (h : looku
 
 theorem tok3 (t : Token) : t = .free ∨ t = .loop ∨ t = .close := by cases t <;> simp
 
-/-- The fixed processor. -/
-abbrev fixedCfg : Cfg := ⟨true⟩
 
 /-! ### control invariants: who holds the token, where Close is -/
 
@@ -163,7 +161,7 @@ theorem invF {s : State κ ν} (hr : Reach (lts fixedCfg) s) : InvF s := by
   | init => simp [InvF, lts, init]
   | step a hr hst ih => exact invF_step (invE hr) ih hst
 
-def InvG (s : State κ ν) : Prop := Event.closeRet ∈ s.log ↔ s.cpc = .returned
+def InvG (s : State κ ν) : Prop := Event.closeRet ∈ s.log → s.token = .close
 
 theorem invG_step {s s' : State κ ν} {a : Label κ ν} (hA : InvA s) (h : InvG s)
     (hst : step fixedCfg s a = some s') : InvG s' := by
